@@ -462,11 +462,11 @@ def _sctp_jobs(tier):
         return jobs
     for st in ("established_client", "established_server", "closed_server", "closed_client", "cookie_wait", "cookie_echoed", "shutdown_ack_sent"):
         for ct in CHUNK_TYPES:
-            for n in (4, 5, 8, 12, 16, 20):
+            for n in (4, 5, 8, 12, 16):
                 jobs.append({"state": st, "ctype": ct, "n": n, "vtag": "local"})
             jobs.append({"state": st, "ctype": ct, "n": 8, "vtag": "zero"})
     for ct in (0, 3, 130, 192, 1, 2):
-        for n in (24, 28, 32):
+        for n in (20, 24):
             jobs.append({"state": "established_client", "ctype": ct, "n": n, "vtag": "local"})
     return jobs
 
@@ -602,7 +602,7 @@ HARNESSES = {
         h_sctp,
         _sctp_jobs,
         style="NC",
-        bounds="valid checksum, correct or zero verification tag; first chunk type fixed per job (all 15 known types + one unknown), 4..12 (quick) / 4..32 chunk bytes symbolic; association states CLOSED (both roles), COOKIE_WAIT, COOKIE_ECHOED, ESTABLISHED (both roles, 2 outstanding chunks, 1 open channel), SHUTDOWN_ACK_SENT; follow-up valid DATA must be delivered when the first datagram left the receive state untouched",
+        bounds="valid checksum, correct or zero verification tag; first chunk type fixed per job (all 15 known types + one unknown), 4..12 (quick) / 4..16 (all states) and 20, 24 (established, six chunk types) chunk bytes symbolic; association states CLOSED (both roles), COOKIE_WAIT, COOKIE_ECHOED, ESTABLISHED (both roles, 2 outstanding chunks, 1 open channel), SHUTDOWN_ACK_SENT; follow-up valid DATA must be delivered when the first datagram left the receive state untouched",
         encoded=ENC_SCTP,
         stubs=STUBS,
         opts=NC_OPTS,
